@@ -8,6 +8,8 @@ Property theorems only; helper lemmas live in `Lemmas/Adversarial.lean`.
   against what the source says now.
 -/
 import FairModel.Lemmas.Adversarial
+import FairModel.Lemmas.AdvStep
+import FairModel.Model.TrainStepLifted
 
 namespace C16
 open Adversarial AdvProjection
@@ -161,6 +163,112 @@ theorem tf_adversary_plain_gradient_structural :
     tf_predictor_applies = (⟨Loss.LP, Player.predictor⟩, Player.predictor) ∧
     tf_dW_LA = ⟨Loss.LA, Player.predictor⟩ := by decide
 
+/-! ### the WHOLE training step (`Model/AdvStep.lean`): all tensors of both players, optimisers as parameters -/
+
+section WholeStep
+open AdvStep
+
+/-- What each optimiser is handed, for ANY pair of optimisers: the predictor's optimiser gets, tensor by tensor, the
+    engine's rule applied to (dLP/dW_i, dLA/dW_i); the adversary's optimiser gets dLA/dU_j unchanged. -/
+theorem whole_step_feeds_optimisers {τP τA : Type} (eng : Mat → Mat → Rat → Option Mat) (α : Rat)
+    (optP : Opt τP) (optA : Opt τA) (m m' : Model τP τA) (g : Grads) (h : step eng α optP optA m g = some m') :
+    ∃ gs, combineAll eng α g.dWLP g.dWLA = some gs ∧
+      g.dWLP.length = g.dWLA.length ∧
+      List.Forall₂ (fun ab G => eng ab.1 ab.2 α = some G) (g.dWLP.zip g.dWLA) gs ∧
+      (m'.pred.params, m'.pred.state) = applyOpt optP m.pred.params m.pred.state gs ∧
+      (m'.adv.params, m'.adv.state) = applyOpt optA m.adv.params m.adv.state g.dULA := by
+  unfold step at h
+  cases hc : combineAll eng α g.dWLP g.dWLA with
+  | none => simp [hc] at h
+  | some gs =>
+    simp only [hc, Option.some.injEq] at h
+    subst h
+    have := combineAll_spec eng α _ _ gs hc
+    exact ⟨gs, rfl, this.1, this.2, rfl, rfl⟩
+
+/-- With plain SGD the predictor moves exactly along `−lr_P · g_i` (g_i = the engine's combined gradient of tensor i)
+    and the adversary along `−lr_A · dLA/dU_j`. -/
+theorem whole_step_sgd (eng : Mat → Mat → Rat → Option Mat) (α lrP lrA : Rat) (m m' : Model Unit Unit) (g : Grads)
+    (hP : m.pred.state.length = m.pred.params.length) (hA : m.adv.state.length = m.adv.params.length)
+    (h : step eng α (sgd lrP) (sgd lrA) m g = some m') :
+    ∃ gs, List.Forall₂ (fun ab G => eng ab.1 ab.2 α = some G) (g.dWLP.zip g.dWLA) gs ∧
+      m'.pred.params = List.zipWith (fun W G => msub W (msmul lrP G)) m.pred.params gs ∧
+      m'.adv.params = List.zipWith (fun U d => msub U (msmul lrA d)) m.adv.params g.dULA := by
+  obtain ⟨gs, _, _, hf, h1, h2⟩ := whole_step_feeds_optimisers eng α (sgd lrP) (sgd lrA) m m' g h
+  refine ⟨gs, hf, ?_, ?_⟩
+  · rw [← applyOpt_sgd lrP _ _ gs hP, ← h1]
+  · rw [← applyOpt_sgd lrA _ _ g.dULA hA, ← h2]
+
+/-- the PyTorch step (loop body as lifted from the source) is defined for every list of gradient tensors: no NaN model -/
+theorem torch_whole_step_defined {τP τA : Type} (α : Rat) (optP : Opt τP) (optA : Opt τA) (m : Model τP τA) (g : Grads)
+    (hlen : g.dWLP.length = g.dWLA.length) : (step torchStep α optP optA m g).isSome = true := by
+  obtain ⟨gs, hgs, _⟩ := combineAll_total torchStep α (fun A B => torch_step_total A B α) _ _ hlen
+  simp [step, hgs]
+
+/-- direction of one predictor tensor under the PyTorch engine: the documented
+    `g = dLP/dW − proj_{dLA/dW}(dLP/dW) − α·dLA/dW` (Frobenius projection), with `g + α·dLA/dW ⟂ dLA/dW`;
+    for `dLA/dW = 0` it is `dLP/dW` itself -/
+theorem torch_whole_step_direction (A B G : Mat) (α : Rat) (hs : sameShape A B = true) (h : torchStep A B α = some G) :
+    (frob B B ≠ 0 → flat G = combine (flat A) (flat B) α ∧
+      dot (vadd (flat G) (smul α (flat B))) (flat B) = 0) ∧
+    ((∀ r ∈ B, ∀ x ∈ r, x = 0) → G = A) := by
+  constructor
+  · intro hB
+    have e := torch_step_is_combine A B α hs hB
+    rw [h] at e
+    simp only [Option.map_some, Option.some.injEq] at e
+    refine ⟨e, ?_⟩
+    rw [e]
+    have hb : dot (flat B) (flat B) ≠ 0 := by rwa [← frob_eq_dot_flat (sameShape_refl B)]
+    exact orthogonal (flat A) (flat B) α (sameShape_flat_length hs) hb
+  · intro hz
+    have := torch_zero_gradient_keeps_dLP A B α hz
+    rw [h] at this
+    exact Option.some.inj this
+
+end WholeStep
+
+/-! ### the statement structure of `train_step`, LIFTED (`Generated/AdvTrainStepSrc.lean`, harness/lifters/adv_trainstep.py) -/
+
+section TrainStepStructure
+open TrainStepL AdvTrainStepSrc
+
+/-- Whatever the `.grad` buffers held before the step (coefficient `stale`), after the statements of `train_step` in
+    their source order: the first copy is exactly dLP/dW, the second exactly dLA/dW (the buffers are cleared between the
+    two backward passes, nothing accumulates), the predictor's optimiser applies the combine rule to (dLP/dW, dLA/dW) and
+    the adversary's optimiser applies exactly dLA/dU — the plain gradient of its own loss. -/
+theorem lifted_train_step_gradients :
+    lifted.ok = true ∧ lifted.snapLP = some ⟨1, 0, 0⟩ ∧ lifted.snapLA = some ⟨0, 1, 0⟩ ∧
+    lifted.appliedP = some (.comb ⟨1, 0, 0⟩ ⟨0, 1, 0⟩) ∧ lifted.appliedA = some ⟨0, 1, 0⟩ := by decide
+
+/-- the data flow of `train_step`: LP reaches only the predictor's parameters, LA reaches both players' -/
+theorem lifted_loss_dependencies : dependsOn .LP = [.predictor] ∧ dependsOn .LA = [.predictor, .adversary] := by decide
+
+/-- why the clearing between the backward passes matters: without the two `zero_grad` calls in the middle the second
+    copy would be dLP/dW + dLA/dW (regression witness for a dropped `zero_grad`) -/
+theorem accumulation_without_clearing :
+    (run dependsOn [.zeroGrad .predictor, .zeroGrad .adversary, .backward .LP, .snapshot .dW_LP, .backward .LA,
+      .snapshot .dW_LA, .combine, .step .predictor, .step .adversary] init).appliedP
+      = some (.comb ⟨1, 0, 0⟩ ⟨1, 1, 0⟩) := by decide
+
+/-- … and without the clearing at the start the adversary would apply stale gradients of the previous step as well -/
+theorem stale_without_initial_clearing :
+    (run dependsOn [.zeroGrad .predictor, .backward .LP, .snapshot .dW_LP, .zeroGrad .predictor, .backward .LA,
+      .snapshot .dW_LA, .combine, .step .predictor, .step .adversary] init).appliedA = some ⟨0, 1, 1⟩ := by decide
+
+/-- demographic parity vs equalized odds, as lifted: `pass_y_` is set exactly for "equalized_odds" (any other keyword is
+    rejected); the adversary is fed the predictor's (undetached) output, followed by the encoded target `y` exactly when
+    `pass_y_`; and the adversary model is built with the matching input width. -/
+theorem lifted_adversary_sees_y_iff_equalized_odds :
+    passY "demographic_parity" = some false ∧ passY "equalized_odds" = some true ∧
+    adversaryInput false = [.yhat] ∧ adversaryInput true = [.yhat, .y] ∧
+    (∀ ny p, adversaryInputWidth ny p = ny * (adversaryInput p).length) := by
+  refine ⟨by decide, by decide, by decide, by decide, ?_⟩
+  intro ny p
+  cases p <;> simp [adversaryInputWidth, adversaryInput]
+
+end TrainStepStructure
+
 /-! ### why single-row tests cannot see F4 -/
 
 /-- for single-row tensors (bias vectors, 1×c weights) `torch.sum(torch.inner(U, A))` IS the Frobenius product -/
@@ -215,5 +323,16 @@ example : engineGrad .sumInner .float32 [[1, 0], [0, 1]] [[1, 1], [0, 1]] 1 = so
 example : engineGrad .frobenius .float64 [[1]] [[0]] 1 = none := by decide +kernel
 example : (2 : Rat) * 2 = frob [[2, 0], [0, 0]] [[2, 0], [0, 0]] := by decide +kernel
 example : observed [1, 2] (sgdStep [1, 2] [4, 8] (1/4)) (1/4) = [4, 8] := by decide +kernel
+-- the optimiser is a parameter: two steps of SGD with momentum 1/2 on one 1x1 tensor (gradient 1 both times, lr 1):
+-- buf = 1, then 1/2 + 1 = 3/2; W = 0 - 1 - 3/2
+example : ((AdvStep.step torchStep 0 (AdvStep.sgdMomentum 1 (1/2)) (AdvStep.sgd 1)
+      ⟨⟨[[[0]]], [none]⟩, ⟨[], []⟩⟩ ⟨[[[1]]], [[[0]]], []⟩).bind
+    (fun m => AdvStep.step torchStep 0 (AdvStep.sgdMomentum 1 (1/2)) (AdvStep.sgd 1) m ⟨[[[1]]], [[[0]]], []⟩)).map
+    (fun m => m.pred.params) = some [[[-5/2]]] := by decide +kernel
+-- one whole step: predictor with a 2x2 weight and a bias, adversary with one 1x2 weight; alpha = 1, lr 1/2 and 1/4
+example : (AdvStep.step torchStep 1 (AdvStep.sgd (1/2)) (AdvStep.sgd (1/4))
+    ⟨⟨[[[1, 0], [0, 1]], [[1, 1]]], [(), ()]⟩, ⟨[[[2, 4]]], [()]⟩⟩
+    ⟨[[[1, 0], [0, 1]], [[1, 0]]], [[[1, 1], [0, 1]], [[0, 0]]], [[[4, 8]]]⟩).map (fun m => (m.pred.params, m.adv.params)) =
+    some ([[[4/3, 5/6], [0, 4/3]], [[1/2, 1]]], [[[1, 2]]]) := by decide +kernel
 
 end C16
